@@ -1217,6 +1217,49 @@ func specNetFound(t *bart.Table[NetworkType], ip netip.Addr) bool { return false
 //@   loop 2 invariant i.networks != nil && fresh(i.networks)
 
 // =====================================================================
+// C09 — tunnels are bound to the certified overlay address (responder side)
+// =====================================================================
+//
+// validatePeerCert, which the responder runs on the verified peer certificate
+// before a tunnel is created: it accepts only certificates with at least one
+// network; the addresses it returns — which become the tunnel's vpnAddrs — are
+// exactly the addresses of the certificate's networks, in order; none of them
+// is one of the node's own addresses (no tunnel to oneself); for a direct
+// (non-relayed) handshake the remote allow list allowed the sender for all of
+// them; the "in common" flag is true only if one of them lies in the node's
+// own networks. A refusal returns no addresses.
+
+//@ func (*LightHouse).GetRemoteAllowList
+//@   trusted atomic load of the configured allow list (built by NewRemoteAllowListFromConfig: every list has its table)
+//@   ensures specRemoteAllowOK(result)
+//@   assigns nothing
+//@ func github.com/slackhq/nebula/cert.(Certificate).Name
+//@   trusted accessor of an immutable certificate
+//@   assigns nothing
+//@ func github.com/slackhq/nebula/cert.(Certificate).Issuer
+//@   trusted accessor of an immutable certificate
+//@   assigns nothing
+
+//@ func (*HandshakeManager).validatePeerCert
+//@   props C09
+//@   ghost j int
+//@   ghost allowed int = 0
+//@   requires hm != nil && hm.f != nil && hm.f.l != nil && hm.f.lightHouse != nil && hm.f.myVpnAddrsTable != nil && hm.f.myVpnNetworksTable != nil && remoteCert != nil && remoteCert.Certificate != nil
+//@   ensures[refused]  implies(!result2, result0 == nil && !result1)
+//@   ensures[nonempty] implies(result2, len(remoteCert.Certificate.Networks()) >= 1 && len(result0) == len(remoteCert.Certificate.Networks()))
+//@   ensures[exact]    implies(result2 && 0 <= j && j < len(result0), result0[j] == remoteCert.Certificate.Networks()[j].Addr())
+//@   ensures[notself]  implies(result2 && 0 <= j && j < len(result0), !liteContains(hm.f.myVpnAddrsTable, result0[j]))
+//@   ensures[common]   implies(result2 && result1, exists(func(m int) bool { return 0 <= m && m < len(result0) && liteContains(hm.f.myVpnNetworksTable, result0[m]) }))
+//@   ensures[shared]   implies(result2 && 0 <= j && j < len(result0) && liteContains(hm.f.myVpnNetworksTable, result0[j]), result1)
+//@   loop 1 invariant[shared]  implies(0 <= j && j < i && liteContains(hm.f.myVpnNetworksTable, vpnAddrs[j]), anyVpnAddrsInCommon)
+//@   callrequires AllowAll arg2 == via.UdpAddr.Addr()
+//@   ensures[allow]    implies(result2 && !via.IsRelayed, allowed == 1)
+//@   loop 1 invariant[exact]   implies(0 <= j && j < i, vpnAddrs[j] == vpnNetworks[j].Addr() && !liteContains(hm.f.myVpnAddrsTable, vpnAddrs[j]))
+//@   loop 1 invariant[common]  implies(anyVpnAddrsInCommon, exists(func(m int) bool { return 0 <= m && m < i && liteContains(hm.f.myVpnNetworksTable, vpnAddrs[m]) }))
+//@   loop 1 invariant[frame]   len(vpnAddrs) == len(vpnNetworks) && fresh(&vpnAddrs[0])
+//@   loop 1 assigns elems(vpnAddrs)
+
+// =====================================================================
 // C10 — replayed handshakes do not create or replace tunnels
 // =====================================================================
 //
@@ -1381,11 +1424,22 @@ func specInsideList(al *RemoteAllowList, vpnAddr netip.Addr) *AllowList {
 //@   ensures result == (specAllow(specInsideList(al, vpnAddr), udpAddr) && specAllow(al.AllowList, udpAddr))
 //@   assigns nothing
 
+// specRemoteAllowOK: a remote allow list as the configuration loader builds it
+// (every list it holds has its prefix table).
+//@ func specRemoteAllowOK
+//@   pure
+func specRemoteAllowOK(al *RemoteAllowList) bool {
+	return al != nil && implies(al.AllowList != nil, al.AllowList.cidrTree != nil) &&
+		forall(func(a netip.Addr) bool {
+			return implies(specInsideList(al, a) != nil, specInsideList(al, a).cidrTree != nil)
+		})
+}
+
 //@ func (*RemoteAllowList).AllowAll
 //@   props C38
 //@   ghost j int
-//@   requires al != nil && implies(al.AllowList != nil, al.AllowList.cidrTree != nil)
-//@   requires[inside] forall(func(m int) bool { return implies(0 <= m && m < len(vpnAddrs) && specInsideList(al, vpnAddrs[m]) != nil, specInsideList(al, vpnAddrs[m]).cidrTree != nil) })
+//@   effect allowed if result
+//@   requires specRemoteAllowOK(al)
 //@   ensures[global] implies(result, specAllow(al.AllowList, udpAddr))
 //@   ensures[each]   implies(result && 0 <= j && j < len(vpnAddrs), specAllow(specInsideList(al, vpnAddrs[j]), udpAddr))
 //@   ensures[deny]   implies(!specAllow(al.AllowList, udpAddr), !result)
